@@ -4,7 +4,7 @@
 
 use proc_macro2::TokenStream;
 use quote::{quote, ToTokens};
-use syn::{parse_quote, Ident, Index, PatIdent, Path};
+use syn::{parse_quote, Expr, Ident, Index, PatIdent, Path};
 
 use super::{config::Config, name_constructors::*};
 use crate::{
@@ -997,11 +997,39 @@ impl<'a> JoinOutput<'a> {
 
                     let initial_expr = replaced_expr.as_ref().unwrap_or(initial_expr);
 
+                    //
+                    // Combinators are applied to the initial value as postfix expressions (`value.map(..)`),
+                    // so a value which binds weaker than a method call (`a + b`, `x as T`, `&v`, `!f`, `a..b`, closure)
+                    // must be parenthesized, otherwise only its last operand would be used.
+                    //
+                    let needs_parens = initial_expr
+                        .inner_exprs()
+                        .and_then(|exprs| exprs.first())
+                        .map_or(false, |expr| {
+                            matches!(
+                                expr,
+                                Expr::Binary(_)
+                                    | Expr::Unary(_)
+                                    | Expr::Cast(_)
+                                    | Expr::Type(_)
+                                    | Expr::Range(_)
+                                    | Expr::Reference(_)
+                                    | Expr::Box(_)
+                                    | Expr::Assign(_)
+                                    | Expr::AssignOp(_)
+                                    | Expr::Closure(_)
+                            )
+                        });
+
                     (
                         prev_def_stream
                             .map(|prev| quote! { #prev #def_stream })
                             .or(def_stream),
-                        quote! { #initial_expr },
+                        if needs_parens {
+                            quote! { (#initial_expr) }
+                        } else {
+                            quote! { #initial_expr }
+                        },
                     )
                 }
             }
